@@ -9,7 +9,7 @@ CHECK = {
   'rule': ('explicit-state BFS to fixpoint over histories of set/rem/resize/copy/assign on one real Table whose keys are '
            'forced to collide modulo 5 and 11 (and wrap around the last slot); a state is the concrete slot layout; every state is '
            're-entered by replaying its shortest history on a fresh table; distinct_nontrivial = states in which at least one entry '
-           'is displaced from its home slot; "light" instances: the per-state oracle reads the slots through the white-box view only and get/mem are explicit operations, so no library call of the oracle comes between two operations (hidden cursors, memos and scratch state survive from one operation to the next); ladders cover size classes 23..197 with enumerated insertion/removal orders'),
+           'is displaced from its home slot; "light" instances: the per-state oracle reads the slots through the white-box view only and get/mem are explicit operations, the key last asked for and the slot it sat in at that moment are part of the state key, so no library call of the oracle comes between two operations and get(k1) ; set(k2) ; get(k1) is a path of its own (hidden cursors, memos and scratch state survive from one operation to the next); ladders cover size classes 23..197 with enumerated insertion/removal orders'),
   'bounds': {
     'quick': 'Int keys: 6-key universe to fixpoint (gcc) and 5-key (ASan+UBSan); String keys: 5-key universe; Probe values 5 keys; ladders to 120 keys x 8 strides x 16 order pairs',
     'thorough': 'Int keys: 8-key universe (global deadline 14 min; the evidence says whether the fixpoint was reached), 7-key under ASan; String keys 7; ladders to 220 keys',
@@ -27,8 +27,8 @@ CHECK = {
       T('str4-asan', 'asan', 'keys=str', 'nkeys=4'),
       T('probe5', 'base', 'keys=probe', 'vals=probe', 'nkeys=5'),
       T('intprobe5', 'base', 'keys=int', 'vals=probe', 'nkeys=5'), T('probeint4-asan', 'asan', 'keys=probe', 'vals=int', 'nkeys=4'),
-      T('int5-light', 'base', 'keys=int', 'nkeys=5', 'light=1'), T('str4-light', 'base', 'keys=str', 'nkeys=4', 'light=1'),
-      T('probe4-light-asan', 'asan', 'keys=probe', 'vals=probe', 'nkeys=4', 'light=1'),
+      T('int4-light', 'base', 'keys=int', 'nkeys=4', 'light=1'), T('str4-light', 'base', 'keys=str', 'nkeys=4', 'light=1', 'alias=0'),
+      T('probe4-light-asan', 'asan', 'keys=probe', 'vals=probe', 'nkeys=4', 'light=1', 'alias=0'),
       T('ladder', 'base', 'mode=ladder', 'ladder_n=120'),
       T('ladder-asan', 'asan', 'mode=ladder', 'ladder_n=60'),
     ],
@@ -39,8 +39,8 @@ CHECK = {
       T('str5-asan', 'asan', 'keys=str', 'nkeys=5'),
       T('probe7', 'base', 'keys=probe', 'vals=probe', 'nkeys=7'),
       T('intprobe7', 'base', 'keys=int', 'vals=probe', 'nkeys=7'), T('probeint6-asan', 'asan', 'keys=probe', 'vals=int', 'nkeys=6'),
-      T('int7-light', 'base', 'keys=int', 'nkeys=7', 'light=1'), T('str5-light', 'base', 'keys=str', 'nkeys=5', 'light=1'),
-      T('probe5-light-asan', 'asan', 'keys=probe', 'vals=probe', 'nkeys=5', 'light=1'),
+      T('int5-light', 'base', 'keys=int', 'nkeys=5', 'light=1'), T('int6-light', 'base', 'keys=int', 'nkeys=6', 'light=1', 'alias=0', 'deadline=800'), T('str5-light', 'base', 'keys=str', 'nkeys=5', 'light=1', 'alias=0'),
+      T('probe4-light-asan', 'asan', 'keys=probe', 'vals=probe', 'nkeys=4', 'light=1'),
       T('ladder', 'base', 'mode=ladder', 'ladder_n=220'),
       T('ladder-asan', 'asan', 'mode=ladder', 'ladder_n=120'),
     ],
